@@ -2,7 +2,7 @@
 
 # property -> contract modules that carry obligations for it
 PROPERTY_MODULES = {
-    "C16": ["selection", "choicemap", "core_gfi", "combinators"],
+    "C16": ["selection", "choicemap", "core_gfi", "combinators", "mcmc"],
     "C08": ["combinators", "pjax_vmap", "extra"],
     "C14": ["seed", "pjax_vmap", "state", "extra"],
     "C19": ["state", "extra"],
